@@ -130,7 +130,9 @@ Definition bit_length (z : Z) : Z := if z =? 0 then 0 else Z.log2 (Z.abs z) + 1.
 Definition num_pow_spelled (a b : num) : ares num :=
   match a, b with
   | NInt x, NInt y =>
-    if 0 <=? y then (if (4096 <? y) && negb ((Z.abs x) <=? 1) then AOracle else ARes (NInt (x ^ y)))
+    if 0 <=? y then
+      (if Z.abs x <=? 1 then ARes (NInt (if y =? 0 then 1 else if x =? 0 then 0 else if x =? 1 then 1 else if Z.even y then 1 else -1))
+       else if 4096 <? y then AOracle else ARes (NInt (x ^ y)))     (* (|x| <= 1: by cases - Z.pow would iterate y times) *)
     else if x =? 0 then AErr else AOracle
   | _, _ =>
     match num_to_sf a, num_to_sf b with
